@@ -67,6 +67,13 @@ readname_loop(char *packet, int packetlen, char **src, char *dst, size_t length,
 			goto end;
 		}
 
+		if (c > 63) {
+			/* Reserved label type, not a length: no label of ours */
+			if (len == 0)
+				return 0;
+			break;
+		}
+
 		if (c > end - s) {
 			/* Label continues after the end of the packet */
 			s = end;
